@@ -10,7 +10,7 @@
 (* returned), obs = projection of the implementation AFTER the step:        *)
 (*   lc, bc   name -> id (0 = not cached)     fsd, hd  directory exists?    *)
 (*   layers   [name, blob, closed, meta, fsd, files] by id                  *)
-(*   blobs    [name, closed, hd, files] by id                               *)
+(*   blobs    [name, closed, hd, conn, fresh, files] by id                  *)
 (*   hs       per holder [pc, n, l, b, fd, hdp]                             *)
 EXTENDS Layer, Json, TLCExt
 
@@ -32,6 +32,7 @@ ObsOK ==
     /\ \A i \in 1..Len(blobs') :
           /\ blobs'[i].name = o.blobs[i].name /\ blobs'[i].closed = o.blobs[i].closed
           /\ blobs'[i].hd = o.blobs[i].hd
+          /\ blobs'[i].closed \/ (blobs'[i].conn = o.blobs[i].conn /\ blobs'[i].fresh = o.blobs[i].fresh)
     /\ fsd' = o.fsd /\ hd' = o.hd
     /\ \A h \in H :
           /\ hs'[h].pc = o.hs[h].pc /\ hs'[h].n = o.hs[h].n /\ hs'[h].l = o.hs[h].l
@@ -45,7 +46,7 @@ TraceReset ==
     /\ lock' = [n \in Names |-> 0] /\ lc' = [n \in Names |-> 0] /\ bc' = [n \in Names |-> 0]
     /\ layers' = <<>> /\ blobs' = <<>> /\ fsd' = <<>> /\ hd' = <<>>
     /\ hs' = [h \in H |-> Idle] /\ nres' = 0 /\ nfault' = 0
-    /\ last' = [act |-> "Init", h |-> 0, n |-> NoName, arg |-> TRUE, ok |-> TRUE, ret |-> ""]
+    /\ last' = [act |-> "Init", h |-> 0, n |-> NoName, arg |-> TRUE, ok |-> TRUE, ret |-> "", cb |-> 0]
 
 Step(e, A) == IsEvent(e) /\ A /\ ObsOK
 
@@ -72,6 +73,8 @@ TraceNext ==
     \/ Step("DoneAgain", DoneAgain(Ev.h))
     \/ Step("CloseAgain", CloseAgain(Ev.h))
     \/ Step("Refresh", Refresh(Ev.h, Ev.arg))
+    \/ Step("Check", Check(Ev.h))
+    \/ Step("Tick", Tick)
     \/ Step("BreakConn", BreakConn(Ev.n))
     \/ Step("TTLExpireLayer", TTLExpireLayer(Ev.n))
     \/ Step("TTLExpireBlob", TTLExpireBlob(Ev.n))
